@@ -153,15 +153,19 @@ PROPS['C24'] = dict(
 
 PROPS['C28'] = dict(
     units=['k_log'], level='proof', design_ref='6/C28',
-    technique='CBMC harness contracts on Logger::is_loggable, Logger::send and Logger::enqueue extracted from the clang AST; the lock-free queue is an assumed model whose try_push '
+    technique='CBMC harness contracts on Logger::is_loggable, Logger::send, Logger::enqueue, Logger::operator(), Logger::flush and the numbering statement of Logger::process_logline extracted from the clang AST; the lock-free queue is an assumed model whose try_push '
               'nondeterministically accepts or refuses',
     text='Sequential conjuncts only: proof for every level mask, level, line and queue answer that a line at a disabled level is never submitted (and send reports success), a line at an '
          'enabled level is submitted exactly once with its text, level and value, and send/enqueue return true exactly when the queue accepted the line (the obligation that failed before fix '
          '33c45da). The consumer thread\'s body Logger::operator() (clang AST, loop contract; the queue is a ghost FIFO of accepted lines and other threads act between any two of its '
          'steps: producers add lines until stop() is called, stop() requests the stop and then enqueues the end marker): it ends only after stop was requested and only when every accepted '
          'line has been handed to process_logline -- the obligation that failed before fix 676e2e5 (the loop ended as soon as the stop was requested: 20000 lines submitted, about 2800 written); '
-         'the end marker is never written as a line. NOT decided: conjuncts about producer interleavings (exactly once / per-producer order and consecutive sequence numbers under 1-8 '
-         'concurrent producers: the queue itself, C30), process_logline / flush formatting and sequence numbering, that stop() joins the thread.',
+         'the end marker is never written as a line. Logger::flush (clang AST, loop contract over a buffer of any length up to 10^6 lines): every buffered line is inserted into the stream '
+         'exactly once, in buffer order, under one hold of the logger mutex, and the buffer is empty afterwards (so a second flush writes nothing twice). The numbering statement of '
+         'Logger::process_logline (`case sequence:`; the innermost statement that increments _sequence, selected from the AST on every run -- the rest of process_logline is formatting and '
+         'is NOT extracted): exactly one number is written per line, exactly one counter advances by one, the number written is the successor of the previous line of the same counter, '
+         'and a logger that does not separate directions numbers all lines from one counter. NOT decided: conjuncts about producer interleavings (exactly once / per-producer order '
+         'under 1-8 concurrent producers: the queue itself, C30), the formatting part of process_logline and its unbuffered write path, that stop() joins the thread.',
     note='producer interleavings are outside sequential contracts; the consumer is verified against an environment that may act between any two of its steps; queue, LogElement constructor, thread id are ASSUMED models',
     trusted_base=COMMON_TRUST,
     explanation='The ghost log of the queue model records each try_push call and its answer, so "submitted exactly once" and "reports success iff accepted" are postconditions over that log.',
@@ -398,9 +402,12 @@ PROPS['C04'] = dict(
     units=['k_dec', 'k_fac', 'k_dgrp'], level='model_checking', design_ref='13/C04',
     technique='CBMC assertions on MessageBase::decode (clang AST of runtime/message.cpp) over a ghost token sequence and presence set, the loop unwound for the stated bound; Message::decode and '
               'Message::factory (real bodies) composed with that per-part behaviour as a model; refutations replayed through the real Message::factory on the generated FIX42 test classes',
-    text='Strict mode, one message part (header / body / trailer), BOUNDED to texts of at most 3 tokens and parts of at most 3 field traits (no groups, no Length/data pairs, no framework-maintained '
+    text='Strict mode, one message part (header / body / trailer), BOUNDED to texts of at most 3 tokens and parts of at most 3 field traits (no groups, no framework-maintained '
          'fields): decode stops on a token boundary; every token before the returned offset was legal for the part and became exactly one field with its own tag, built from its own value text, '
          'at consecutive positions; a repeated tag raises; it stops only at a tag that is not legal for the part; no mandatory field is missing on return; nothing is kept as unknown. '
+         'A Length field followed by its data field (separate harness, same bound): the accepted data field is built from the counted bytes of its own token (a data value may contain the '
+         'separator byte, so reading it up to the next separator would give it a value different from its text) and is retained under its own tag in input order; a refutation is replayed '
+         'through the real factory on a Logon whose RawData contains the separator. '
          'Message::factory / Message::decode (proved-modular over that per-part behaviour): parts are decoded header, body, trailer, each from where the previous one stopped, the trailer up to the '
          'checksum field; unframed text, an unknown message type, a text not ending in the checksum field or a checksum mismatch are not accepted. '
          'KNOWN FINDING (refuted, replayed on the real code): factory drops the length decode() consumed, so a message is accepted although tokens remain -- everything from the first tag that is not '
@@ -618,6 +625,12 @@ def _replay_k_log(oid, inputs, trace, wd):
         sd = os.path.join(wd, 'logstopscratch'); os.makedirs(sd, exist_ok=True)
         rc, o = _rp.run_native(exe, [20000, sd], timeout=600)
         return dict(steps=[dict(kind='native: 20000 lines submitted to a real FileLogger, then stop(); lines in the file counted (5 rounds)', rc=rc, output=o[-1200:])], reproduced=rc == 1)
+    if '.flush.' in oid or '.sequence.' in oid or 'logger_flush' in oid or 'logger_number_line' in oid:
+        which = 'flush' if ('flush' in oid) else 'sequence'
+        exe = _rp.build_native(os.path.join(_rp.VERIF, 'replay', 'k_logseq.cpp'), os.path.join(wd, 'replay_k_logseq'), extra=[R + '/runtime/logger.cpp', R + '/runtime/f8utils.cpp', '-lz'], sanitize=False, timeout=1200)
+        sd = os.path.join(wd, 'logseqscratch'); os.makedirs(sd, exist_ok=True)
+        rc, o = _rp.run_native(exe, [which, sd], timeout=300)
+        return dict(steps=[dict(kind='native: 20 lines (val alternating 0/1) submitted to a real FileLogger numbering its lines%s, stopped%s; numbers and texts in the file compared with 1..20 / the submitted texts' % ((', buffering', ', flushed twice') if which == 'flush' else ('', '')), rc=rc, output=o[-1200:])], reproduced=rc == 1)
     exe = _rp.build_native(os.path.join(_rp.VERIF, 'replay', 'k_log.cpp'), os.path.join(wd, 'replay_k_log'), extra=[R + '/runtime/logger.cpp', R + '/runtime/f8utils.cpp', '-lz'], timeout=1200)
     rc, o = _rp.run_native(exe, ['search', os.path.join(wd, 'logscratch')], timeout=600)
     return dict(steps=[dict(kind='native contract-checking search: real FileLogger, every level mask x every level, return values and file content', rc=rc, output=o[-1500:])], reproduced=rc == 1)
@@ -741,7 +754,7 @@ def _replay_k_dec(oid, inputs, trace, wd):
     exe = _rp.build_native(os.path.join(_rp.VERIF, 'replay', 'k_dec.cpp'), os.path.join(wd, 'replay_k_dec'),
                            extra=[R + '/runtime/message.cpp', '-I/repo/utests', '-L/repo/utests/.libs', '-lutest', '-L/repo/runtime/.libs', '-lfix8',
                                   '-Wl,-rpath,/repo/utests/.libs', '-Wl,-rpath,/repo/runtime/.libs'], timeout=900)
-    which = 'strict_unknown' if 'C04.factory' in oid else 'all' if 'C04' in oid else 'permissive_plain' if 'C05' in oid else 'all'
+    which = 'strict_unknown' if 'C04.factory' in oid else 'data_soh' if ('data_field' in oid or 'data_bytes' in oid) else 'all' if 'C04' in oid else 'permissive_plain' if 'C05' in oid else 'all'
     rc, o = _rp.run_native(exe, [which])
     return dict(steps=[dict(kind='native: real Message::factory (and Message::encode for the re-encoding) on generated FIX42 test classes, scenario ' + which, rc=rc, output=o[-1500:])], reproduced=rc == 1)
 
